@@ -331,10 +331,58 @@ def t11_xmin(run, fx):
         run.anchor_missing(rule, "BoundingBox read in x_min")
 
 
+def t11_lsb(run, fx):
+    rule = "T11-LSB"
+    run.rule(rule, "hmtx reconstruction (WOFF2 5.4): leftSideBearing[] holds the bearings of the glyphs numberOfHMetrics..numGlyphs only. When the "
+                   "array is omitted it is rebuilt from the xMin of exactly those glyphs: the value stored in HmtxTable.left_side_bearings that "
+                   "comes from glyf.records() skips the first num_h_metrics records (as the sibling arm reads num_glyphs - num_h_metrics entries "
+                   "from the stream)")
+    import sym
+    import reach
+    bs = [b for b in fx.bodies if b.kind != "Closure" and b.path.startswith("<woff2::Woff2HmtxTable as binary::read::ReadBinaryDep>::read_dep")]
+    if not bs:
+        return run.anchor_missing(rule, "<woff2::Woff2HmtxTable as ReadBinaryDep>::read_dep")
+    b = bs[0]
+    prov = sym.Prov(b)
+    n = 0
+    for bi, blk in enumerate(b.blocks):
+        for st in blk["s"]:
+            if not (st["k"] == "assign" and st["rv"]["k"] == "agg" and (st["rv"].get("adt") or "").endswith("HmtxTable")):
+                continue
+            f = dict(zip(st["rv"]["fnames"], st["rv"]["fields"]))
+            if "left_side_bearings" not in f:
+                continue
+            op = f["left_side_bearings"]
+            terms = []
+            t = sym.strip(prov.op(op))
+            if t[0] == "local":
+                for d in b.defs().get(t[1], []):
+                    terms.append(sym.strip(reach.def_term(b, prov, d)))
+            else:
+                terms.append(t)
+            for t in terms:
+                calls = [(x[4] or x[1] or "") for x in sym.walk(t) if x[0] == "call"]
+                if not any(c.endswith("GlyfTable::<'a>::records") or c.endswith("::records") for c in calls):
+                    continue      # the arm that reads the array from the stream
+                n += 1
+                skips = [x for x in sym.walk(t) if x[0] == "call" and (x[4] or x[1] or "").endswith("Iterator::skip")]
+                ok = any(any(y[0] == "arg" or (y[0] == "field") or y[0] == "local" for y in sym.walk(x[2][1])) and
+                         "num_h_metrics" in sym.show(x[2][1]) for x in skips if len(x[2]) > 1)
+                sliced = any(x[0] == "call" and (x[4] or x[1] or "").endswith(("Index::index", "::get")) and "num_h_metrics" in sym.show(x) for x in sym.walk(t))
+                if ok or sliced:
+                    run.ok(rule, "left_side_bearings is rebuilt from the records after the first num_h_metrics")
+                else:
+                    run.fail(rule, "lsb-all-glyphs:Woff2HmtxTable::read_dep", "the omitted leftSideBearing[] array is rebuilt from the xMin of ALL glyphs: it gets numGlyphs entries "
+                             "instead of numGlyphs - numberOfHMetrics, so glyph numberOfHMetrics + k receives the bearing of glyph k", b.loc(st))
+    if n == 0:
+        run.anchor_missing(rule, "left_side_bearings rebuilt from glyf.records()")
+
+
 def check(run, fx, tier, floors=True):
     if floors or fx.body("woff2::HmtxTableFlag::lsb_is_present") is not None:
         t11_hmtx(run, fx)
         t11_xmin(run, fx)
+        t11_lsb(run, fx)
     if floors or any(b.root.endswith("Woff2TableProvider::new") for b in fx.bodies):
         import rules_C09
         rules_C09.t09_loca_woff2(run, fx)
